@@ -64,6 +64,7 @@ def run(ck):
     ck.rule("C19.R3", "Display/as_str and FromStr tables inverse; nothing else accepted", floor=30)
     ck.rule("C19.R5", "a LevelFilter used as a layer / per-layer filter enables `level <= self` and publishes itself as the max-level hint, OFF included (as C08.R4)", floor=4)
     ck.rule("C19.R6", "the digits mean one thing: #[instrument(level = <digit>)] produces the level that digit parses to", floor=1)
+    ck.rule("C19.R7", "the published maximum is the collector's own hint whatever it is wrapped in: Box / Arc / Layered / ... forward max_level_hint and register_callsite (as C09.R1/R2)", floor=8)
     ck.rule("C19.R4", "set_max/current inverse; enable tests are level <= filter", floor=20)
     for cfg in configs:
         F = Facts(cfg)
@@ -84,6 +85,9 @@ def run(ck):
             C01.r5(ck, F, rid="C19.R4")
             C01.rebuild_unconditional(ck, rid="C19.R4")      # ... and publishes what it computed on every path, std and no_std
             C01.r6(ck, F, rid="C19.R4")                      # ... for every Dispatch there is
+            from rules import C09 as _C09
+            _C09.wrapper_rules(ck, F, rids={"R0": "C19.R7", "R1": "C19.R7", "R2": "C19.R7", "R3": "C19.R7"}, only={"max_level_hint"})
+            _C09.dispatch_forwarding(ck, F, rid="C19.R7", only={"max_level_hint"})
 
 
 # ------------------------------------------------------------------ R1
